@@ -69,6 +69,16 @@ class World:
         bad.time = self.sigs[0].time
         bad.local = None
         self.sigs.append(bad)
+        # a signature the parser lets through although two of its aggregation chains have chain indices of the same length (it fails internal
+        # verification): which of the two counts as the first chain must not depend on anything but the bytes
+        t = t0 + 100
+        tie = gen.gen_signature(rng, time=t, rfc=False, calendar=self.cal, pub_time=t + 3600, doc_data=b'tie-%d' % seed, first_corr=0, nchains=2, with_cal=True, anchor='none')
+        tie.chains[1].index = list(tie.chains[0].index)
+        tie.raw = tie.enc()
+        tie.data = b'tie-%d' % seed
+        tie.docimp = tie.doc
+        tie.local = None
+        self.sigs.append(tie)
         self.roots = {s.time: s.root for s in self.sigs}
 
     def ext_reply(self, raw, behaviour='honest'):
